@@ -15,13 +15,13 @@ open Supv.Inst Supv.Spec
     from `j` was tagged at most `inactivity_ticks` local ticks earlier, and no failure notification about `j` is handled
     (its XML-RPCs succeed).  Everything else — ticks with any counter, publications, handshake results (stale, duplicated),
     requests, failures of OTHER peers, any oracle stream — is unconstrained. -/
-def AccHist (c : Cfg) (j : Nat) : St → List (Nat × Op × List (Query × Bool)) → Prop
+def AccHist (c : Cfg) (j : Nat) : St → List (Nat × Op × List (Query × Nat)) → Prop
   | _, [] => True
   | s, o :: rest => AccOk c j s o.2.1 ∧ AccHist c j (stepOp c s o.1 o.2.1 o.2.2).1 rest
 
 /-- **C07 (accuracy).**  A remote peer seen RUNNING whose ticks keep arriving and whose XML-RPCs succeed is never declared
     FAILED, STOPPED or ISOLATED: it is still RUNNING after every such history, internal errors of other handlers included. -/
-theorem C07_accuracy (c : Cfg) (j : Nat) (hj : j ≠ c.me) (ops : List (Nat × Op × List (Query × Bool))) (s : St)
+theorem C07_accuracy (c : Cfg) (j : Nat) (hj : j ≠ c.me) (ops : List (Nat × Op × List (Query × Nat))) (s : St)
     (hrun : peerRun j s) (hok : AccHist c j s ops) :
     peerRun j (ops.foldl (fun s o => (stepOp c s o.1 o.2.1 o.2.2).1) s) := by
   induction ops generalizing s with
